@@ -34,16 +34,33 @@ def setup_paths(repo):
 
 
 class OldRewriter(ast.NodeTransformer):
-    """old(e) -> __old_k (pre-evaluated);  implies(a, b) -> ((not a) or b)  (lazy)."""
+    """old(e) -> __old_k (pre-evaluated), or __old_k(i, ..) when e mentions variables bound by
+    enclosing lambdas;  implies(a, b) -> ((not a) or b)  (lazy);  ite -> conditional expression."""
 
     def __init__(self):
-        self.olds = []
+        self.olds = []          # (expr, [lambda variable names used])
+        self.bound = []
+
+    def visit_Lambda(self, node):
+        names = [a.arg for a in node.args.args]
+        self.bound.append(names)
+        try:
+            node.body = self.visit(node.body)
+        finally:
+            self.bound.pop()
+        return node
 
     def visit_Call(self, node):
         if isinstance(node.func, ast.Name) and node.func.id == "old" and len(node.args) == 1:
             k = len(self.olds)
-            self.olds.append(node.args[0])
-            return ast.copy_location(ast.Name(id=f"__old_{k}", ctx=ast.Load()), node)
+            inner = node.args[0]
+            bound = [n for names in self.bound for n in names]
+            used = [n for n in bound if any(isinstance(x, ast.Name) and x.id == n for x in ast.walk(inner))]
+            self.olds.append((inner, used))
+            ref = ast.Name(id=f"__old_{k}", ctx=ast.Load())
+            if used:
+                ref = ast.Call(func=ref, args=[ast.Name(id=n, ctx=ast.Load()) for n in used], keywords=[])
+            return ast.copy_location(ref, node)
         self.generic_visit(node)
         if isinstance(node.func, ast.Name) and node.func.id == "implies" and len(node.args) == 2:
             new = ast.BoolOp(op=ast.Or(), values=[ast.UnaryOp(op=ast.Not(), operand=node.args[0]), node.args[1]])
@@ -63,14 +80,32 @@ class Clause:
         ast.fix_missing_locations(tree)
         self.code = compile(tree, f"<clause {name}>", "eval")
         self.olds = []
-        for i, o in enumerate(rw.olds):
-            e = ast.Expression(body=o)
+        for i, (o, used) in enumerate(rw.olds):
+            body = o
+            if used:
+                body = ast.Lambda(args=ast.arguments(posonlyargs=[], args=[ast.arg(arg=n) for n in used], kwonlyargs=[],
+                                                     kw_defaults=[], defaults=[]), body=o)
+            e = ast.Expression(body=body)
             ast.fix_missing_locations(e)
-            self.olds.append(compile(e, f"<old {name}#{i}>", "eval"))
+            self.olds.append((compile(e, f"<old {name}#{i}>", "eval"), bool(used)))
 
     def pre(self, ns):
         vals = {}
-        for i, c in enumerate(self.olds):
+        snap = None
+        for i, (c, is_fn) in enumerate(self.olds):
+            if is_fn:
+                # evaluated later, against a deep copy of the pre-state
+                if snap is None:
+                    snap = dict(ns)
+                    for k, v in list(ns.items()):
+                        if k.startswith("__") or callable(v) or isinstance(v, type(ast)):
+                            continue
+                        try:
+                            snap[k] = copy.deepcopy(v)
+                        except Exception:  # pylint: disable=broad-except
+                            pass
+                vals[f"__old_{i}"] = eval(c, snap)  # pylint: disable=eval-used
+                continue
             v = eval(c, ns)  # pylint: disable=eval-used
             try:
                 v = copy.deepcopy(v)
@@ -165,7 +200,7 @@ class Harness:
                 if isinstance(cl, Clause):
                     pres[cl.name] = cl.pre(ns)
         except Exception as e:  # pylint: disable=broad-except
-            return {"status": "failed", "clause": "old()", "detail": f"{type(e).__name__}: {e}"}
+            return {"status": "spec_error", "clause": "old()", "detail": f"{type(e).__name__}: {e}"}
         if self.setup is not None:
             self.setup(args)
         exc = None
